@@ -182,3 +182,22 @@ CHECKS["C03"] = {
         "are outside the statement." + TRUSTED
     ),
 }
+
+CHECKS["C02"] = {
+    "technique": "abstract-run stage sequences + exceptional-CFG must-pass rules + drain-loop idiom table + receiver-sensitive CHA call-shape check",
+    "text": (
+        "Stage order is read off the abstract run of C01 (first-occurrence sequences of setUp/test/tearDown/cleanup at "
+        "every normal exit: setUp first, test and tearDown iff setUp returned normally, cleanups after); the "
+        "exceptional CFG of _run_core shows cleanups on every path after setUp and tearDown on every path out of the "
+        "test method; both _run_cleanups implementations are recognised as LIFO drain loops over the live list that "
+        "invoke each popped triple once with args and kwargs and have no early exit; every private attribute TestCase "
+        "writes during a run is re-initialised by _reset, which dominates the run; patch/useFixture register their undo "
+        "and MonkeyPatcher saves before setattr and restores last-first with both arms; a receiver-class-sensitive CHA "
+        "over the whole package checks that every self/super call shape is accepted by the callee it resolves to for "
+        "each possible receiver (this found the Twisted _run_user overrides rejecting cleanup kwargs, now fixed)."
+    ),
+    "note": (
+        "Attribute *values* after restore and the internals of the fixtures package are not decided. "
+        "addOnException handlers are treated as configuration (not reset)." + TRUSTED
+    ),
+}
